@@ -239,14 +239,26 @@ def run(a):
         _emit("M", {"ev": "pairs", "pairs": [[int(i) + 1, int(j) + 1] for i, j in pairs]})
         return pairs
     pt.tight_pairs = traced_pairs
+
+    def swapstats():
+        # the master's exchange book-keeping as the diagnostics read it: every ordered pair a # b (1-based).  Only logged when the
+        # scenario asks for it (./check bookkeeping, selftest): the listed properties say nothing about these statistics.
+        if not a.get("stats"):
+            return
+        n = pt.N_chains
+        _emit("M", {"ev": "swapstats",
+                    "att": [[i + 1, j + 1, int(pt.attempted_swaps[i, j])] for i in range(n) for j in range(n) if i != j],
+                    "suc": [[i + 1, j + 1, int(pt.successful_swaps[i, j])] for i in range(n) for j in range(n) if i != j]})
     try:
         for cmd in a["prog"]:
             if cmd[0] == "steps":
                 pt.take_steps(cmd[1])
             elif cmd[0] == "swap":
                 pt.swap()
+                swapstats()
             elif cmd[0] == "advance":
                 pt.advance(cmd[1], swap_interval=cmd[2])
+                swapstats()
             elif cmd[0] == "return":
                 got = pt.return_chains()
                 result["returned"].append([{
